@@ -9,7 +9,8 @@ W=$(mktemp -d /tmp/mutwt.XXXXXX); rmdir "$W"
 git -C /repo worktree add -q --detach "$W" HEAD || exit 2
 git -C "$W" apply "$P" || { echo "patch does not apply"; git -C /repo worktree remove --force "$W"; exit 2; }
 for prop in "$@"; do
-  out=$(cd /verif && VERIF_REPO="$W" timeout 1500 ./bin/symgo check -prop "$prop" -tier quick -no-evidence 2>&1); rc=$?
+  V="${VERIF_DIR:-/verif}"
+  out=$(cd "$V" && VERIF_DIR="$V" VERIF_REPO="$W" timeout 1500 ./bin/symgo check -prop "$prop" -tier quick -no-evidence 2>&1); rc=$?
   echo "== $prop exit=$rc"; echo "$out" | grep -E "VIOLATION|counterexample|INCONCLUSIVE|KNOWN" | cut -c1-260 | head -8
 done
 git -C /repo worktree remove --force "$W"
